@@ -194,7 +194,7 @@ def run(ctx):
         # of the positions alone, whatever bookkeeping the gravity module keeps between calls
         grav = rng.choice(["basic", "basic", "compensated", "compensated", "none"])
         nact = rng.choice([-1, -1, rng.randint(1, n)])
-        long_tp = (k % 6 == 5) and order <= 6 and n >= 3
+        long_tp = (k % 3 == 2) and order <= 6 and n >= 3
         if long_tp:
             # long runs with several active bodies and test particles under compensated summation (state kept by the
             # gravity module between calls must not leak into the accelerations)
@@ -208,7 +208,7 @@ def run(ctx):
         nsteps = rng.randint(1, ctx.scale(30, 200) if order < 10 else 8)
         if long_tp: nsteps = rng.randint(250, 400)
         hist = None
-        if k % 4 == 3 and n >= 3 and not long_tp:
+        if k % 4 == 1 and n >= 3 and not long_tp:
             # a simulation object with a history: steps, then a particle is removed (and possibly one added back): the
             # round trip measured afterwards on the SAME object must still be bit-wise exact
             hist = rng.choice(["remove", "remove+add", "remove,step,add"])
